@@ -20,10 +20,12 @@ Inductive implres : Type :=
 | INum (text : list N) (unit : string)
 | IErr
 | IKept
+| IInf (neg : bool)          (* calc(infinity) / calc(-infinity) *)
 | IOther.
 
 (* fn: 1 abs 2 ceil 3 floor 4 round 5 percentage 6 div 7 max 8 min 9 clamp 10 sqrt
-       11 exp/log/pow (guard only) 12 sin/cos/tan (guard only) *)
+       11 exp/log/pow (guard only) 12 sin/cos/tan (guard only)
+       13 pow on the family whose value is known without libm: base in {0, 1, -1, 2, -2}, whole exponent *)
 Record case := mkCase { c_fn : Z; c_args : list (Z * string); c_impl : implres }.
 
 Definition guard_res (ok : bool) : mres := if ok then MOut else MErr.
@@ -41,14 +43,14 @@ Definition model (c : case) : mres :=
   | 8, _ => m_min args
   | 9, [mn; x; mx] => m_clamp mn x mx
   | 10, [a] => m_sqrt a
-  | 11, _ => guard_res (forallb unitless_arg args)
+  | 11, _ | 13, _ => guard_res (forallb unitless_arg args)
   | 12, [a] => guard_res (angle_or_unitless a)
   | _, _ => MOut
   end.
 
 Definition corr (c : case) : Z :=
   match model c, c_impl c with
-  | MOut, IErr => match c_fn c with 11 | 12 => 0 | _ => 2 end   (* guard says fine but the call failed *)
+  | MOut, IErr => match c_fn c with 11 | 12 | 13 => 0 | _ => 2 end   (* guard says fine but the call failed *)
   | MOut, _ => 2
   | MNum n, INum t u =>
       if f_is_finite (nval n) then
@@ -58,6 +60,7 @@ Definition corr (c : case) : Z :=
                       then match nunit n with [] | [(_, 1)] => 0 | _ => 2 end   (* `x / 1unit`, `calc(..)` forms of compound units *)
                       else 2
   | MNum n, IErr => match nunit n with [] | [(_, 1)] => 0 | _ => 2 end   (* compound units cannot be printed as CSS *)
+  | MNum n, IInf _ => if f_is_finite (nval n) then 0 else 2
   | MErr, IErr => 1
   | MKept, IKept | MKept, IErr => 1
   | _, _ => 0
@@ -162,8 +165,7 @@ Definition value_ok (c : case) : bool :=
               end
           | _ => false
           end
-        else if none_unitless || all_unitless then match r with IErr => true | _ => false end
-        else true                         (* mixed unitless / unit: reading left open *)
+        else match r with IErr => true | _ => false end   (* different groups, or unitless mixed with units (also % and fr) *)
     | 10, [x], [u], r =>
         if unitless u then
           match r with
@@ -177,6 +179,23 @@ Definition value_ok (c : case) : bool :=
           | _ => false
           end
         else match r with IErr => true | _ => false end
+    | 13, [b; n], [ub; un], r =>
+        if unitless ub && unitless un && Qeq_bool (inject_Z (Qfloor n)) n then
+          let nz := Qfloor n in
+          let want_num (v : Q) := match r with
+                                  | INum t ru => match printed t with Some w => Qeq_bool w v && unitless ru | None => false end
+                                  | _ => false
+                                  end in
+          if Qeq_bool b 1%Q then want_num 1%Q
+          else if Qeq_bool b (-1)%Q then want_num (if Z.even nz then 1%Q else (-1)%Q)
+          else if Qeq_bool b 0%Q then (if (0 <? nz)%Z then want_num 0%Q else true)
+          else if Qeq_bool (Qabs b) 2%Q then
+            if (1100 <=? nz)%Z then
+              match r with IInf neg => Bool.eqb neg (negb (Qle_bool 0%Q b) && Z.odd nz) | _ => false end
+            else if (nz <=? -1100)%Z then want_num 0%Q
+            else true
+          else true
+        else true
     | 11, _, _, r =>
         if forallb unitless us then match r with IErr => false | _ => true end
         else match r with IErr => true | _ => false end
